@@ -38,7 +38,7 @@ type Prog struct {
 }
 
 var shortNames = map[string]string{
-	modPath:             "biscuit",
+	modPath:              "biscuit",
 	modPath + "/datalog": "datalog",
 	modPath + "/parser":  "parser",
 	modPath + "/pb":      "pb",
